@@ -8,6 +8,9 @@ R5.3 extraction completeness: the wrapper node (innermost node of the parsed tem
      {src}) has AST-valued fields; text supplied as `src` can populate or alter them (`a, b=1` in a call, `+ 1 for x in y` in a
      comprehension, `a if x` in a case).  The function must look at every such field (to extract it or to reject), or the
      wrapper silently drops / absorbs part of the source.
+R5.5 result type of class modes: a mode that names an AST class K (the class or its name) whose registered parser also serves another mode
+     (a base class, a broader named mode such as 'expr_arglike' / 'expr_slice') has the row K in the result-type table, and parse() /
+     code_as() reject a result that is not an instance of the looked-up type.
 R5.4 losslessness of construction: fromsrc hands the same `src` to the parser and (split into lines) to the root; FST.__new__
      stores the lines as bistr unchanged.
 Not decided: position equality for arbitrary fragments (multi-byte text, comments, continuations) - value level.
@@ -213,6 +216,7 @@ def run(ctx):
     ctx.not_decided += ['position equality of parsed fragments with the enclosing construct for arbitrary text (multi-byte, comments, '
                         'continuation lines)', 'that invalid source is rejected in every mode (only wrapper-absorption is decided)']
     check_registries(ctx, F)
+    check_result_types(ctx, F)
     tpls = templates(ctx)
     if len(tpls) < 40:
         raise AnalysisError(f'only {len(tpls)} wrapper templates found in parsex.py')
@@ -518,3 +522,64 @@ def check_construction(ctx):
     stores = [n for n in walk_no_nested(nw.node) if isinstance(n, ast.Assign) and norm(n.targets[0]) == 'self._lines']
     okb = bool(stores) and all(any(isinstance(x, ast.Call) and call_name(x) == 'bistr' for x in ast.walk(n.value)) for n in stores)
     ctx.check('R5.4', okb, 'fst', 'FST.__new__', 'lines stored as bistr', 'root lines must be stored as bistr (byte-indexable) of the given lines', nw.lineno)
+
+
+def check_result_types(ctx, F):
+    """R5.5: `FST(src, Starred)` must give a Starred or raise.  The parser registered for a class mode is, for most classes, the parser of
+    a broader mode (every expr leaf -> parse_expr, Starred -> parse_expr_arglike, Slice -> parse_expr_slice ...), so the narrowing is done
+    by parse() / code_as() against a table of result types.  Decided: the table has the row for every class whose parser is not dedicated
+    to it, and both consumers test the result against the looked-up type in a raising guard."""
+    ctx.rule('R5.5', 'every AST-class parse mode whose parser also serves another mode has its result type registered, and parse() / code_as() '
+                     'reject a result that is not an instance of it', 150)
+    P = ctx.ev.get('parsex', '_PARSE_MODE_FUNCS')
+    R = ctx.ev.get('parsex', '_AST_TYPE_BY_NAME_OR_TYPE')
+    if not isinstance(R, dict) or not isinstance(P, dict):
+        raise AnalysisError('parsex._AST_TYPE_BY_NAME_OR_TYPE / _PARSE_MODE_FUNCS did not evaluate to tables (anchor vanished)')
+    served = {}
+    for k, v in P.items():
+        if isinstance(v, FuncTok):
+            served.setdefault((v.module, v.qualname), []).append(k)
+    for c in F:
+        if (c.is_ast and getattr(c, 'pyclass', None) is None) or any(b.name == '_ASTDummy' for b in c.mro()[1:]):
+            continue
+        tok = P.get(c)
+        if not isinstance(tok, FuncTok):
+            continue          # explicitly not parseable (None)
+        others = [k for k in served[(tok.module, tok.qualname)] if k != c and k != c.name]
+        for key in (c, c.name):
+            if key not in P:
+                continue
+            ok = R.get(key) == c
+            if not ok and not others:
+                ctx.ok('R5.5', f'parsex|mode {c.name}|dedicated parser {tok.name}')
+                continue
+            ctx.check('R5.5', ok, 'parsex', '_AST_TYPE_BY_NAME_OR_TYPE', f'result type of mode {key if isinstance(key, str) else c.name!r}'
+                      f' ({"name" if isinstance(key, str) else "class"} key)',
+                      f'mode {c.name} is parsed by {tok.name}, which also serves {[getattr(o, "name", o) for o in others][:4]} and can return other '
+                      f'node types, but no result type {c.name} is registered for it: source that is not a {c.name} is accepted and comes back '
+                      f'as another node type instead of being rejected')
+    # the consumers
+    for mod, q in (('parsex', 'parse'), ('code', 'code_as')):
+        fis = ctx.repo.find_funcs(mod, q)
+        if not fis:
+            raise AnalysisError(f'{mod}.{q} not found (anchor vanished)')
+        for fi in fis:
+            looked = set()
+            for x in walk_no_nested(fi.node):
+                v = None
+                if isinstance(x, ast.Assign) and len(x.targets) == 1 and isinstance(x.targets[0], ast.Name):
+                    tg, v = x.targets[0].id, x.value
+                elif isinstance(x, ast.NamedExpr):
+                    tg, v = x.target.id, x.value
+                if v is not None and any(isinstance(y, ast.Name) and y.id == '_AST_TYPE_BY_NAME_OR_TYPE' for y in ast.walk(v)):
+                    looked.add(tg)
+            guarded = False
+            for x in walk_no_nested(fi.node):
+                if isinstance(x, ast.If) and any(isinstance(s, ast.Raise) for s in x.body):
+                    for c in ast.walk(x.test):
+                        if isinstance(c, ast.Call) and call_name(c) == 'isinstance' and len(c.args) == 2 and \
+                                isinstance(c.args[1], ast.Name) and c.args[1].id in looked:
+                            guarded = True
+            ctx.check('R5.5', guarded, fi.module, fi.qualname, 'isinstance(result, <registered result type>) guard',
+                      f'{q}() does not reject a result that is not an instance of the type registered for the mode: a class mode returns whatever '
+                      f'the shared parser produced', fi.lineno, sample={'function': fi.key, 'lookup_locals': sorted(looked)})
